@@ -146,7 +146,8 @@ def gen_doc(r):
     ids = r.sample([1, 27, 48, 37, 16, 49, 2, 20, 100, 254, 255, 77], r.randint(0, 5))
     for tid in ids:
         home = r.random() < 0.7
-        t = {"id": tid, "peak": r.choice([100, 600, 1000, 2000, 4000, 108, 48, 10000, 350]), "min": r.choice([(0, 0), (5, 3), (1, 4), (1, 2), (5, 4), (1, 1)]),
+        t = {"id": tid, "peak": r.choice([100, 600, 1000, 2000, 4000, 108, 48, 10000, 350]), "min": r.choice([(0, 0), (5, 3), (1, 4), (1, 2), (5, 4), (1, 1), (r.randrange(0, 10001), 4), (r.randrange(0, 300), 4),
+                                                                                                       (r.choice([3, 6, 7, 12, 24, 29, 58, 93, 113, 116, 232, 255, 5015, 7636]), 4)]),
              "prim": gen_prim(r), "home": home}
         targets.append(t)
         mp.append("target@%d~%d~%s~%s~%d" % (tid, t["peak"], dm(t["min"]), ",".join(dm(d) for d in t["prim"]), 1 if home else 0))
